@@ -117,6 +117,7 @@ def run (kv : List (String × String)) : IO Res := do
     | .ok l => pure l
     | .error e => return .bad e
   let mut tags := cfgTags lc.cfg
+  if lc.result == "panic" then return .propfail "the dump panicked on a target that loads generated modules" tags
   if lc.result != "ok" then return .ok ("dump.failed" :: tags)
   let some base := get kv "base" | return .bad "base"
   let some auxvB ← C18.readFile s!"{base}.auxv" | return .bad "auxv"
